@@ -22,15 +22,16 @@ package daemon
 
 /*@
 global cr BoolArr           -- orders of which stopWorkers has cancelled a running worker (ghost)
-global sortOK Bool          -- the list had the set properties of the invariant just before sort.Slice (ghost)
 
 type OrderedDaemon
   ghost ordOf (Array Str Int)
   monitor lock level 1 guards workers, shutdownOrderWorker, wgPerSameShutdownOrder, ordOf, map:workers, map:wgPerSameShutdownOrder, elems:shutdownOrderWorker
     invariant self.workers != nil ==> self.wgPerSameShutdownOrder != nil
     invariant self.workers == nil ==> len(self.shutdownOrderWorker) == 0
-    invariant self.workers != nil ==> forall k Str :: has(self.workers, k) ==> self.workers[k] != nil && self.workers[k].handler != nil && has(self.wgPerSameShutdownOrder, self.workers[k].shutdownOrder) && self.wgPerSameShutdownOrder[self.workers[k].shutdownOrder] != nil
-    invariant self.workers != nil ==> (forall i Int :: 0 <= i && i < len(self.shutdownOrderWorker) ==> has(self.workers, self.shutdownOrderWorker[i]) && self.workers[self.shutdownOrderWorker[i]] != nil && self.workers[self.shutdownOrderWorker[i]].shutdownOrder == sel(self.ordOf, self.shutdownOrderWorker[i]) && has(self.wgPerSameShutdownOrder, sel(self.ordOf, self.shutdownOrderWorker[i])) && self.wgPerSameShutdownOrder[sel(self.ordOf, self.shutdownOrderWorker[i])] != nil)
+    invariant self.workers == nil ==> aload(self.stopped)        -- the registry is cleared only after stopped was set (stopped never goes back)
+    invariant self.workers != nil ==> forall k Str :: has(self.workers, k) ==> self.workers[k] != nil && self.workers[k].handler != nil && has(self.wgPerSameShutdownOrder, self.workers[k].shutdownOrder)
+    invariant self.wgPerSameShutdownOrder != nil ==> forall o Int :: has(self.wgPerSameShutdownOrder, o) ==> self.wgPerSameShutdownOrder[o] != nil
+    invariant self.workers != nil ==> (forall i Int :: 0 <= i && i < len(self.shutdownOrderWorker) ==> has(self.workers, self.shutdownOrderWorker[i]) && self.workers[self.shutdownOrderWorker[i]].shutdownOrder == sel(self.ordOf, self.shutdownOrderWorker[i]))
     invariant self.workers != nil ==> (forall i Int, j Int :: 0 <= i && i < j && j < len(self.shutdownOrderWorker) ==> sel(self.ordOf, self.shutdownOrderWorker[i]) >= sel(self.ordOf, self.shutdownOrderWorker[j]))
     invariant self.workers != nil ==> (forall i Int, j Int :: 0 <= i && i < j && j < len(self.shutdownOrderWorker) ==> self.shutdownOrderWorker[i] != self.shutdownOrderWorker[j])
   callback stoppedCtxCancel()
@@ -67,6 +68,9 @@ func OrderedDaemon.getWorkersAndShutdownOrder
   ensures unlocked(d.lock) && r0 != nil
   ensures forall k Str :: (has(r0, k) <==> has(d.workers, k)) && (has(r0, k) ==> r0[k] == d.workers[k])
   ensures len(r1) == len(d.shutdownOrderWorker) && forall i Int :: 0 <= i && i < len(r1) ==> r1[i] == d.shutdownOrderWorker[i]
+  -- what the ordering loop needs, stated on the snapshot itself
+  ensures forall i Int :: 0 <= i && i < len(r1) ==> has(r0, r1[i]) && r0[r1[i]] != nil && has(d.wgPerSameShutdownOrder, r0[r1[i]].shutdownOrder) && d.wgPerSameShutdownOrder[r0[r1[i]].shutdownOrder] != nil
+  ensures forall i Int, j Int :: 0 <= i && i < j && j < len(r1) ==> r0[r1[i]].shutdownOrder >= r0[r1[j]].shutdownOrder
 
 -- the ordering loop
 func OrderedDaemon.stopWorkers
@@ -88,7 +92,7 @@ func OrderedDaemon.stopWorkers
   ensures unlocked(d.lock)
 
 func OrderedDaemon.clear
-  requires d != nil && unlocked(d.lock)
+  requires d != nil && unlocked(d.lock) && aload(d.stopped)
   modifies everything
   ensures unlocked(d.lock) && (aload(d.stopped) <==> old(aload(d.stopped))) && (aload(d.running) <==> old(aload(d.running)))
 
@@ -122,6 +126,12 @@ func OrderedDaemon.runBackgroundWorker$1
   callback backgroundWorker(ctx)          -- the handler cannot reach the variables this closure captured
   modifies everything
 
+-- sort.Slice on the name list: reorders the elements of that slice and nothing else (what the order is afterwards
+-- is the assumption stated at the call in BackgroundWorker); it calls less with valid indices only
+assume-func sort.Slice(x, less)
+  requires typeof(x) == typeid([]string)
+  modifies elems(unbox([]string, x))
+
 -- the comparison handed to sort.Slice: descending shutdown order
 func OrderedDaemon.BackgroundWorker$1
   requires d != nil && *d != nil && (*d).workers != nil && 0 <= i && i < len((*d).shutdownOrderWorker) && 0 <= j && j < len((*d).shutdownOrderWorker)
@@ -137,9 +147,14 @@ func OrderedDaemon.BackgroundWorker
   modifies everything
   callback handler(ctx)
   ghost before call OrderedDaemon.IsStopped: assert held(d.lock)
+  -- intermediate facts (proved, then used): once an old registration of the name is out of the way, the list does
+  -- not contain the name, still lists registered names only and has no duplicates
+  ghost before call WithCancel: assert d.workers != nil && (forall i Int :: 0 <= i && i < len(d.shutdownOrderWorker) ==> d.shutdownOrderWorker[i] != name && has(d.workers, d.shutdownOrderWorker[i]) && d.workers[d.shutdownOrderWorker[i]].shutdownOrder == sel(d.ordOf, d.shutdownOrderWorker[i]))
+  ghost before call WithCancel: assert (forall i Int, j Int :: 0 <= i && i < j && j < len(d.shutdownOrderWorker) ==> d.shutdownOrderWorker[i] != d.shutdownOrderWorker[j])
   ghost before call Slice: d.ordOf = upd(d.ordOf, name, shutdownOrder)
-  ghost before call Slice: sortOK = ((forall i Int :: 0 <= i && i < len(d.shutdownOrderWorker) ==> has(d.workers, d.shutdownOrderWorker[i]) && d.workers[d.shutdownOrderWorker[i]] != nil && d.workers[d.shutdownOrderWorker[i]].shutdownOrder == sel(d.ordOf, d.shutdownOrderWorker[i]) && has(d.wgPerSameShutdownOrder, sel(d.ordOf, d.shutdownOrderWorker[i])) && d.wgPerSameShutdownOrder[sel(d.ordOf, d.shutdownOrderWorker[i])] != nil) && (forall i Int, j Int :: 0 <= i && i < j && j < len(d.shutdownOrderWorker) ==> d.shutdownOrderWorker[i] != d.shutdownOrderWorker[j]))
-  ghost after call Slice: assume sortOK ==> (forall i Int :: 0 <= i && i < len(d.shutdownOrderWorker) ==> has(d.workers, d.shutdownOrderWorker[i]) && d.workers[d.shutdownOrderWorker[i]] != nil && d.workers[d.shutdownOrderWorker[i]].shutdownOrder == sel(d.ordOf, d.shutdownOrderWorker[i]) && has(d.wgPerSameShutdownOrder, sel(d.ordOf, d.shutdownOrderWorker[i])) && d.wgPerSameShutdownOrder[sel(d.ordOf, d.shutdownOrderWorker[i])] != nil) && (forall i Int, j Int :: 0 <= i && i < j && j < len(d.shutdownOrderWorker) ==> d.shutdownOrderWorker[i] != d.shutdownOrderWorker[j]) && (forall i Int, j Int :: 0 <= i && i < j && j < len(d.shutdownOrderWorker) ==> sel(d.ordOf, d.shutdownOrderWorker[i]) >= sel(d.ordOf, d.shutdownOrderWorker[j]))
+  ghost before call Slice: assert (forall i Int :: 0 <= i && i < len(d.shutdownOrderWorker) ==> has(d.workers, d.shutdownOrderWorker[i]) && d.workers[d.shutdownOrderWorker[i]].shutdownOrder == sel(d.ordOf, d.shutdownOrderWorker[i]))
+  ghost before call Slice: assert (forall i Int, j Int :: 0 <= i && i < j && j < len(d.shutdownOrderWorker) ==> d.shutdownOrderWorker[i] != d.shutdownOrderWorker[j])
+  ghost after call Slice: assume (forall i Int :: 0 <= i && i < len(d.shutdownOrderWorker) ==> has(d.workers, d.shutdownOrderWorker[i]) && d.workers[d.shutdownOrderWorker[i]].shutdownOrder == sel(d.ordOf, d.shutdownOrderWorker[i])) && (forall i Int, j Int :: 0 <= i && i < j && j < len(d.shutdownOrderWorker) ==> d.shutdownOrderWorker[i] != d.shutdownOrderWorker[j]) && (forall i Int, j Int :: 0 <= i && i < j && j < len(d.shutdownOrderWorker) ==> sel(d.ordOf, d.shutdownOrderWorker[i]) >= sel(d.ordOf, d.shutdownOrderWorker[j]))
   ensures unlocked(d.lock)
   ensures old(aload(d.stopped)) ==> r0 != nil
 
